@@ -8,10 +8,10 @@ CONSTANTS
   Lens <- AllLens
   Modes = {"static", "auto", "chunk"}
   Chunks = {3}
-  Pools <- PoolsOne
+  Pools <- PoolsSmall
   Waits = {TRUE, FALSE}
   MinItems = {1}
-  Grans = {1}
+  Grans = {1, 3}
   Props = {"c12"}
   L3 = 1
   GSpan = 2
